@@ -138,7 +138,16 @@ func smallFileCase(ctx *core.Ctx, stream string, i int) *Case {
 	return c
 }
 
+const c09Stripes = 4
+
 func checkC09Case(ctx *core.Ctx, i int, rep *core.Report) {
+	for s := 0; s < c09Stripes; s++ {
+		checkC09Job(ctx, i, s, rep)
+	}
+}
+
+// checkC09Job enumerates the cut positions congruent to stripe modulo c09Stripes.
+func checkC09Job(ctx *core.Ctx, i, stripe int, rep *core.Report) {
 	c := smallFileCase(ctx, "c09", i)
 	res := writeClean(c, rep)
 	if res == nil {
@@ -153,8 +162,10 @@ func checkC09Case(ctx *core.Ctx, i int, rep *core.Report) {
 	witness := c.Witness()
 	witness["c09_case"] = i
 	rep.Distinct(c.Shape.String(), c.K.String())
-	rep.Count("files", 1)
-	rep.Count("file_bytes", int64(len(data)))
+	if stripe == 0 {
+		rep.Count("files", 1)
+		rep.Count("file_bytes", int64(len(data)))
+	}
 	ends, cum := cumulativeOuts(f, true)
 	mends, mcum := cumulativeMessages(f)
 	type cfg struct {
@@ -179,7 +190,7 @@ func checkC09Case(ctx *core.Ctx, i int, rep *core.Report) {
 		return
 	}
 	fullKeys := tripleKeys(fullIter.Triples)
-	for n := 0; n < len(data); n++ {
+	for n := stripe; n < len(data); n += c09Stripes {
 		prefix := data[:n]
 		rep.Eval(3)
 		for _, v := range []bool{false, true} {
@@ -228,7 +239,7 @@ func checkC09Case(ctx *core.Ctx, i int, rep *core.Report) {
 			return
 		}
 	}
-	if i%6 == 0 {
+	if i%6 == 0 && stripe == 0 {
 		rep.Sample(map[string]any{"case": i, "shape": c.Shape.String(), "config": c.K.String(), "file_bytes": len(data), "cuts": len(data), "chunks": len(f.Chunks())})
 	}
 }
@@ -240,7 +251,7 @@ func RunC09(ctx *core.Ctx, rep *core.Report) {
 		"distinct_nontrivial counts distinct files enumerated."
 	rep.Assumptions = []string{"record boundaries come from the reference decoder"}
 	n := ctx.Pick(24, 600)
-	core.Parallel(ctx, rep, n, func(i int) {
-		checkC09Case(ctx, i, rep)
+	core.Parallel(ctx, rep, n*c09Stripes, func(k int) {
+		checkC09Job(ctx, k/c09Stripes, k%c09Stripes, rep)
 	})
 }
